@@ -178,6 +178,15 @@ def run_transient(case):
     s2 = SCSI(dev)          # a second facade over the same device: same rule
     if [a for a in dev.assigned if a is not final]:
         out.append(("transient_set", "second attach to the same device object of type %#04x: .opcodes passed through another set" % dtype))
+    # the older facade goes away (re-bound name, a short-lived helper): the device stays attached to the live one with its set
+    import gc
+    del s
+    SCSI(dev).inquiry()
+    gc.collect()
+    if dev.opcodes is not final:
+        out.append(("set_lost_when_facade_discarded", "device of type %#04x attached to a live facade: after an older / helper facade of the same device was "
+                    "discarded it carries another set than before" % dtype))
+    del s2
     return out
 
 
